@@ -32,6 +32,8 @@ import (
 //	mreq <host> <pauth>                                  => acc:<id> | 407 | 404 | closed
 //	mw   <user> <pass> <auth>                            => next | 401    HTTPAuthMiddleware
 //	wq / wflush / s5: see eng_httpauth_web.go (static_file plugin, frps dashboard, frpc admin API, socks5 plugin)
+//	h2c: see eng_httpauth_h2c.go (one connection upgraded to HTTP/2 and the further streams sent on it)
+//	treset / tpx / tclose / tconn / tview: see eng_httpauth_tmux.go (real server-side tcpmux proxies on a real muxer)
 //	pl   <user> <pass> <pauth>                           => true | false  plugin http_proxy Auth
 //	plc  <user> <pass> (<method> <pauth>)+               => <r1>,<r2>,…   plugin http_proxy Handle: ONE work connection
 //	       carrying the requests in turn (CONNECT-like methods target the protected TCP service, the others
@@ -65,16 +67,23 @@ type httpAuthState struct {
 var has *httpAuthState
 var hasMu sync.Mutex
 
-func backendConn(id int) net.Conn {
+// backendConn: the service behind route <id>.  It answers with its identity and with what it saw itself: X-Cred: 0 when
+// it is protected by user / pass and the request it received does not carry exactly these (else 1).
+func backendConn(id int, user, pass string) net.Conn {
 	a, b := net.Pipe()
 	go func() {
 		defer b.Close()
 		br := bufio.NewReader(b)
 		_ = b.SetDeadline(time.Now().Add(5 * time.Second))
-		if _, err := http.ReadRequest(br); err != nil {
+		req, err := http.ReadRequest(br)
+		if err != nil {
 			return
 		}
-		fmt.Fprintf(b, "HTTP/1.1 200 OK\r\nX-Id: %d\r\nContent-Length: 0\r\nConnection: close\r\n\r\n", id)
+		cred := 1
+		if u, p, ok := req.BasicAuth(); (user != "" || pass != "") && !(ok && u == user && p == pass) {
+			cred = 0
+		}
+		fmt.Fprintf(b, "HTTP/1.1 200 OK\r\nX-Id: %d\r\nX-Cred: %d\r\nContent-Length: 0\r\nConnection: close\r\n\r\n", id, cred)
 	}()
 	return a
 }
@@ -240,16 +249,23 @@ func httpAuthExec(tok []string) string {
 	if r, ok := httpAuthWebExec(st, tok); ok {
 		return r
 	}
+	if r, ok := httpAuthTmuxExec(tok); ok {
+		return r
+	}
 	switch tok[0] {
 	case "reset":
 		httpAuthReset()
+		hatReset("")
 		return "-"
+	case "h2c":
+		return st.hah2Conn(tok)
 	case "reg":
 		id := atoi(tok[6])
+		bu, bp := unhx(tok[4]), unhx(tok[5])
 		err := st.rp.Register(vhost.RouteConfig{
 			Domain: unhx(tok[1]), Location: unhx(tok[2]), RouteByHTTPUser: unhx(tok[3]),
 			Username: unhx(tok[4]), Password: unhx(tok[5]),
-			CreateConnFn: func(string) (net.Conn, error) { return backendConn(id), nil },
+			CreateConnFn: func(string) (net.Conn, error) { return backendConn(id, bu, bp), nil },
 		})
 		if err != nil {
 			return "conflict"
@@ -505,11 +521,58 @@ func haPlugAuthTok(rng *rand.Rand, u, p string) string {
 func httpAuthGen(rng *rand.Rand, n int, emit func(string)) {
 	emit("reset")
 	id := 0
+	regs := []hah2Reg{} // the http routes asked for since the last reset
 	for i := 0; i < n; i++ {
-		k := rng.Intn(2086)
+		k := rng.Intn(2296)
 		switch {
+		case k >= 2086 && k < 2286:
+			// one connection upgraded to HTTP/2 (or opened with prior knowledge) carrying 1..4 further streams
+			emit(hah2Gen(rng, regs))
+		case k >= 2286:
+			// server-side tcpmux proxies, a burst on a fresh muxer: real NewProxy(tcpmux).Run / Close, real
+			// CONNECT requests, listener dumps
+			tsh := pick(rng, hatSHs)
+			tpxs, tlive := []hatPx{}, []int{}
+			emit("treset " + hx(tsh))
+			for r, nr := 0, 25+rng.Intn(30); r < nr; r++ {
+				i++
+				switch t := rng.Intn(100); {
+				case t < 25:
+					id++
+					rid := id
+					if len(tlive) > 0 && rng.Intn(12) == 0 {
+						rid = pick(rng, tlive) // an instance that is already running
+					}
+					line, px := hatGenRun(rng, rid, tsh)
+					emit(line)
+					if rid == id {
+						tpxs = append(tpxs, px)
+						tlive = append(tlive, id)
+					}
+				case t < 32:
+					if len(tlive) == 0 {
+						continue
+					}
+					j := rng.Intn(len(tlive))
+					cid := tlive[j]
+					tlive = append(tlive[:j], tlive[j+1:]...)
+					for x := range tpxs {
+						if tpxs[x].id == cid {
+							tpxs = append(tpxs[:x], tpxs[x+1:]...)
+							break
+						}
+					}
+					emit(fmt.Sprintf("tclose %d", cid))
+				case t < 92:
+					emit(hatGenConn(rng, tpxs))
+				default:
+					emit("tview")
+				}
+			}
+			emit("tview")
 		case k < 20:
 			emit("reset")
+			regs = regs[:0]
 		case k < 440:
 			id++
 			ru := pick(rng, haUsers)
@@ -520,7 +583,9 @@ func httpAuthGen(rng *rand.Rand, n int, emit func(string)) {
 			if rng.Intn(4) == 0 {
 				u, p = "", ""
 			}
-			emit(fmt.Sprintf("reg %s %s %s %s %s %d", hx(haMixCase(rng, pick(rng, haHosts))), hx(pick(rng, haLocs)), hx(ru), hx(u), hx(p), id))
+			rh, rl := pick(rng, haHosts), pick(rng, haLocs)
+			regs = append(regs, hah2Reg{rh, rl, ru, u, p})
+			emit(fmt.Sprintf("reg %s %s %s %s %s %d", hx(haMixCase(rng, rh)), hx(rl), hx(ru), hx(u), hx(p), id))
 		case k < 520:
 			emit(fmt.Sprintf("unreg %s %s %s", hx(pick(rng, haHosts)), hx(pick(rng, haLocs)), hx(pick(rng, haUsers))))
 		case k < 1320:
